@@ -8,7 +8,7 @@ import ast
 
 from ..core import AnchorError, call_name, decorators, norm, short, own_nodes, kwarg, FUNC_TYPES
 from ..cfg import cfg_of
-from ..lib import calls_in, stmts_in, gate, must_pass, node_has, params, attr_stores
+from ..lib import calls_in, stmts_in, gate, must_pass, node_has, params, attr_stores, effective_body
 
 PROJ = 'jedi.api.project'
 
@@ -198,7 +198,8 @@ def rule_d(repo, chk):
                        'import resolution must use inference_state.get_sys_path()', key='sys.path-read|%s:%s' % key)
     chk.floor('C20.d', n, 4, '(reads of sys.path)')
     g = repo.find('jedi.inference', 'InferenceState.get_sys_path')
-    ok = len(g.body) <= 2 and 'self.project._get_sys_path(self, **kwargs)' in norm(g.body[-1])
+    eb = effective_body(g)
+    ok = len(eb) == 1 and 'self.project._get_sys_path(self, **kwargs)' in norm(eb[-1])
     chk.ob('C20.d', ok, g, 'InferenceState.get_sys_path is project._get_sys_path(self, ...)')
     imp = repo.find('jedi.inference.imports', 'Importer._sys_path_with_modifications')
     ok = any(call_name(c) == 'get_sys_path' for c in calls_in(imp))
